@@ -271,7 +271,7 @@ func c05Writes(p *Prog, r *Report) {
 // ---------------------------------------------------------------- day variable
 
 func c05DayVar(p *Prog, r *Report) {
-	r.Rule("C05.R1b", "day variable: starts at the simulation start, advances by exactly one day once per iteration, and the loop runs up to and including the end date", 3)
+	r.Rule("C05.R1b", "day variable: starts at the simulation start, advances by exactly one day once per iteration, and the loop runs up to and including the end date; the date text of the records is the conversion of the day variable, set unconditionally before the writers", 4)
 	x := walked(p, "hermes.HermesSession.Run")
 	if x == nil {
 		return
@@ -315,6 +315,42 @@ func c05DayVar(p *Prog, r *Report) {
 		}
 	}
 	r.Ob("step", pos, okStep && n == 1, fmt.Sprintf("%d advance(s) of the day variable per iteration: %s(the step DT is one day: C01.R1)", n, det))
+	// the date a record carries is today's: the date text is set once per iteration, unconditionally, from the
+	// calendar conversion of the day variable, before the record writers
+	{
+		okD, detD, posD := false, "the date text of the records is not set in the day loop", pos
+		allFromDay := true
+		firstWrite := 1 << 30
+		for _, e := range x.Events {
+			if e.Kind == "call" && e.Name == "hermes.OutputConfig.WriteLine" && e.InLoop(day) && e.Seq < firstWrite {
+				firstWrite = e.Seq
+			}
+		}
+		for _, e := range x.Events {
+			if e.Kind != "assign" || e.Root != "GlobalVarsMain.AKTUELL" || !e.InLoop(day) {
+				continue
+			}
+			posD = p.Pos(e.Pos)
+			fromDay := false
+			if as, ok := e.Stmt.(*ast.AssignStmt); ok && len(as.Rhs) == 1 {
+				if c, ok := as.Rhs[0].(*ast.CallExpr); ok && len(c.Args) == 1 && strings.HasSuffix(types.ExprString(c.Fun), ".Kalender") {
+					if id, ok := c.Args[0].(*ast.Ident); ok && x.Info.Uses[id] == day.VarObj {
+						fromDay = true
+					}
+				}
+			}
+			uncond := innermost(e, day) && len(inLoopGuardsNoBreak(e, day)) == 0
+			if !fromDay {
+				allFromDay = false
+			}
+			if okD {
+				continue // an earlier store already establishes it; later ones only have to be conversions of the day variable too
+			}
+			okD = fromDay && uncond && e.Seq < firstWrite
+			detD = fmt.Sprintf("date text = calendar conversion of the day variable: %v, once per iteration and unconditional: %v, before the first record writer: %v", fromDay, uncond, e.Seq < firstWrite)
+		}
+		r.Ob("date-text", posD, okD && allFromDay, detD+fmt.Sprintf("; every store of the date text in the loop is such a conversion: %v", allFromDay))
+	}
 	// inclusive end
 	okEnd := false
 	endDet := "header " + day.Cond.Key()
